@@ -92,6 +92,7 @@ func properties() map[string]*PropertySpec {
 		Harnesses: []HarnessSpec{
 			nat("H_C06_numbering", "numbered", "1..3 frames of symbolic kind, optional read error at the end; late schedule", ""),
 			nat("H_C03_pairing", "paired", "eager schedule: request j = j-th frame, writer/request pairing", ""),
+			eng("H_C06_blockedwriter", "blockedwriter", "2..3 pipelined requests on a connection whose client never reads (handlers block inside Write) plus a second connection", ""),
 		}})
 	add(&PropertySpec{ID: "C13",
 		Functions: "(*conn).serveRequests (StartTLS branch), (*Request).StartTLS, (*conn).initConn, newResponseWriter, (*ResponseWriter).Write",
@@ -168,6 +169,17 @@ func properties() map[string]*PropertySpec {
 		Outside:   []string{"address forms: the ten rows listed in the harness; the resolver's answer and Listen's outcome are symbolic", "after Stop the flag is not required to drop (the property speaks of the interval until Stop is called)"},
 		Harnesses: []HarnessSpec{
 			eng("H_C17_ready", "run ok", "10 address forms x resolver answer x Listen outcome x 0..2 concurrent Ready pollers x spawn-order schedules", ""),
+		}})
+	td := func(name, reach, bound, tiers string) HarnessSpec {
+		return HarnessSpec{Name: name, Pkg: "testdirectory", Native: true, Reach: []string{reach}, Bound: bound, Tiers: tiers,
+			Tweak: func(c *HarnessCfg, tier string) { c.ExtraPkgs["golang.org/x/exp/slices"] = true }}
+	}
+	add(&PropertySpec{ID: "C19",
+		Functions: "(*Directory).handleBind closure, (*Entry).GetAttributeValues, (*Request).GetSimpleBindMessage, NewBindResponse, SetResultCode, (*ResponseWriter).Write; the bind request is produced by the real newRequest",
+		Outside:   []string{"more than 2 (quick) / 3 (thorough) user entries, 2 attributes x 2 values each", "transport independence (plain / TLS / StartTLS) follows from C13 and C18: the handler never touches the connection", "controls attached to successful binds (SetControls) are not part of the statement"},
+		Harnesses: []HarnessSpec{
+			td("H_TD_C19_bind", "bind answered", "<= 2 users x <= 2 attributes x <= 2 values, all names/values/DNs/passwords unbounded symbolic strings (duplicate DNs, prefix DNs, missing or empty password attributes included), both AllowAnonymousBind settings", "quick"),
+			td("H_TD_C19_bind3", "bind answered", "as quick with <= 3 users", "thorough"),
 		}})
 	add(&PropertySpec{ID: "C02",
 		Functions: "(*conn).readRequest, (*conn).readPacket, newRequest, newMessage, (*packet).{basicValidation,requestPacket,requestType,requestMessageID,simpleBindParameters,searchParmeters,modifyParameters,addParameters,deleteParameters,extendedOperationName,controlPacket,assert,assertApplicationRequest}, decodeControl, decodeAttribute, NewControl*",
